@@ -371,6 +371,15 @@ def eval_small(e, env):
         k = src(e)
         if k in env:
             return env[k]
+        if isinstance(e, ast.Call) and isinstance(e.func, ast.Name) and e.func.id in ('bool', 'len', 'int', 'str', 'abs') \
+                and len(e.args) == 1 and not e.keywords:
+            v = eval_small(e.args[0], env)
+            if v is UNKNOWN:
+                return UNKNOWN
+            try:
+                return {'bool': bool, 'len': len, 'int': int, 'str': str, 'abs': abs}[e.func.id](v)
+            except Exception:
+                return UNKNOWN
     d = dotted(e)
     if d is not None:
         if d in env:
